@@ -8,6 +8,7 @@ import (
 	"os"
 	"strings"
 	"sync"
+	"time"
 
 	"golang.org/x/tools/go/ssa"
 )
@@ -412,7 +413,9 @@ func (m *Machine) callSSA(caller *frame, fn *ssa.Function, args []value, env []v
 		}
 	}
 	if h, ok := intrinsics[fn.String()]; ok {
-		return h(m, caller, args)
+		if r := h(m, caller, args); r != notHandled {
+			return r
+		}
 	}
 	if h, ok := reflectIntrinsics[fn.String()]; ok {
 		return h(m, caller, args)
@@ -501,8 +504,13 @@ func (fr *frame) runBlocks() {
 		done := false
 		for _, instr := range b.Instrs {
 			fr.m.steps++
-			if fr.m.steps > fr.m.maxSteps {
-				fr.m.stop("unwind", "step limit exceeded in %s", fr.fn)
+			if fr.m.steps&0x3fff == 0 {
+				if fr.m.steps > fr.m.maxSteps {
+					fr.m.stop("unwind", "step limit exceeded in %s", fr.fn)
+				}
+				if time.Now().After(fr.m.exp.deadline) {
+					fr.m.stop("inconclusive", "time limit reached inside a path (in %s)", fr.fn)
+				}
 			}
 			if fr.m.trace {
 				fmt.Fprintf(os.Stderr, "%s\t%T %v\n", fr.fn.Name(), instr, instr)
@@ -652,7 +660,11 @@ func (fr *frame) exec(instr ssa.Instruction) {
 	switch in := instr.(type) {
 	case *ssa.DebugRef:
 	case *ssa.Alloc:
-		o := m.newObj(zero(in.Type().(*types.Pointer).Elem()))
+		et := in.Type().(*types.Pointer).Elem()
+		if m.allocOn && in.Heap {
+			m.account(conc(64, uint64(sizeOf(et))))
+		}
+		o := m.newObj(zero(et))
 		fr.env[fr.info.slots[in]] = Ptr{obj: o}
 	case *ssa.UnOp:
 		fr.env[fr.info.slots[in]] = m.unop(fr, in)
@@ -706,8 +718,31 @@ func (fr *frame) exec(instr ssa.Instruction) {
 			m.addCandidate("write", "write to shared map in "+fr.fn.String(), nil)
 			m.stop("violation", "write to frozen map in %s", fr.fn)
 		}
+		if m.allocOn {
+			mt := in.Map.Type().Underlying().(*types.Map)
+			m.account(conc(64, uint64(sizeOf(mt.Key())+sizeOf(mt.Elem())+8)))
+		}
 		m.mapSet(mp, fr.get(in.Key), fr.get(in.Value))
 	case *ssa.MakeMap:
+		if in.Reserve != nil {
+			// make(map, hint): buckets for hint entries are allocated eagerly
+			h := m.idx64(fr.get(in.Reserve).(Scalar), in.Reserve.Type())
+			mt := in.Type().Underlying().(*types.Map)
+			per := sizeOf(mt.Key()) + sizeOf(mt.Elem()) + 8
+			if h.sym != nil {
+				ok := tCmp("bvsle", h.sym, tConst(64, uint64(maxAllocBytes/per)))
+				if !m.branch(ok) {
+					m.goPanicStr("runtime error: make(map) with a size hint beyond available memory (size controlled by input)")
+				}
+				pos := tIte(tCmp("bvsgt", h.sym, tConst(64, 0)), h.sym, tConst(64, 0))
+				m.account(fromTerm(tBV("bvmul", pos, tConst(64, uint64(per)))))
+			} else if int64(h.c) > 0 {
+				if int64(h.c) > maxAllocBytes/per {
+					m.goPanicStr("runtime error: make(map) with a size hint beyond available memory")
+				}
+				m.account(conc(64, h.c*uint64(per)))
+			}
+		}
 		m.objSeq++
 		fr.env[fr.info.slots[in]] = &Map{id: m.objSeq}
 	case *ssa.MakeSlice:
